@@ -32,7 +32,7 @@ def check(run, repo):
         'are parsed; unknown species must raise KeyError. check_element_balance is interpreted with symbolic '
         'compositions on reactions that are balanced / unbalanced by construction (reactants vs products, reactants '
         'vs transition state). parse_formula is interpreted on abstract formulas with repeated symbols, missing and '
-        'symbolic counts; the regular expressions must have the modelled shape.')
+        'symbolic counts; the regular expressions are decided on the abstract strings by pmv/absre.py.')
     run.assumptions = ['species names contain neither the delimiters nor blanks and do not start with a digit',
                        'collections.Counter addition modelled as key-wise sum (its dropping of non-positive totals '
                        'is not modelled)']
